@@ -78,6 +78,15 @@ def check_conformance(case, acc, sigp='c02'):
         acc.viol(sigp + '.dumps.exception', case, repr(ex), 'bytes', 'encoding a well-formed message raised')
         return
     enc_ok = True
+    if case.get('pds'):
+        # how PDS keys are distributed over carriers is C12's subject (the statement does not fix greediness):
+        # here only the reading of the produced bytes is compared
+        try:
+            want = iso_ref.decode(data, cfg, enc, hx)
+        except iso_ref.RefError as ex:
+            acc.viol(sigp + '.encode.unreadable', case, str(ex), 'a message of the documented layout')
+            return
+        ref = data
     if data != ref:
         hdr_end = 36 if hx else 20
         if hx and enc in EBCDIC and data[:4] == ref[:4] and data[hdr_end:] == ref[hdr_end:] \
